@@ -72,6 +72,27 @@ func openPty() (*ptyWriter, error) {
 
 // finish closes the slave side, waits for the rest of the output and returns everything that was written.
 func (p *ptyWriter) finish() []byte {
+	// closing the last slave descriptor may discard what the master side has not read yet: wait until the output queue is
+	// empty and the collected length has stopped growing
+	deadline := time.Now().Add(5 * time.Second)
+	last, stable := -1, 0
+	for time.Now().Before(deadline) {
+		var pending int32
+		ioctl(p.slave.Fd(), syscall.TIOCOUTQ, unsafe.Pointer(&pending))
+		p.mu.Lock()
+		n := p.buf.Len()
+		p.mu.Unlock()
+		if pending == 0 && n == last {
+			stable++
+			if stable >= 3 {
+				break
+			}
+		} else {
+			stable = 0
+		}
+		last = n
+		time.Sleep(2 * time.Millisecond)
+	}
 	p.slave.Close()
 	select {
 	case <-p.done:
